@@ -424,6 +424,9 @@ fn run_once(
                 let now1 = sim.now_wall();
                 let obs = call.key().and_then(|k| env.obs(k));
                 let norm = harness::normalise_call(&call);
+                if std::env::var("SIMCHECK_DEBUG").is_ok() {
+                    eprintln!("op #{i} wall {now0}..{now1}: {} -> {} obs={obs:?}", call.brief(), res.brief());
+                }
                 report.ops += 1;
                 report.count(&format!("op.{}", call.name()), 1);
                 if let Res::Err(e) = &res {
